@@ -15,7 +15,9 @@ Addressed(f) == GearOf7(f \div 512) \in {<<"gshort", UnitShort>>, <<"ggroup", Un
 
 Faulted(u, ans) ==
     IF u.fault.kind # "none" /\ u.nans + 1 = u.fault.at
-    THEN (IF u.fault.kind = "silent" THEN Silent ELSE <<"err", 255>>)
+    THEN (IF u.fault.kind = "silent" THEN Silent
+          ELSE IF u.fault.kind = "errsame" /\ ans[1] = "val" THEN <<"err", ans[2]>>     \* garbled, same data bits
+          ELSE <<"err", 255>>)
     ELSE ans
 
 \* dt: the device type enabled for this frame (0 = none)
